@@ -578,7 +578,7 @@ def run(ctx):
                     break
                 runner.run_case(spec)
         rng = ctx.rng
-        for i in range(ctx.budget(60, 5000)):
+        for i in range(ctx.budget(60, 20000)):
             if runner.dead or ctx.enough():
                 break
             for spec in random_specs(rng, "%s/%s/%s/%d" % (ctx.seed, ctx.tier, ctx.shard[0], i)):
